@@ -957,8 +957,11 @@ def h_make_owner(ctx, p):
     mid = map_in(p.E, p.val)
     ms = p.st.maps.get(mid) if mid else None
     src = map_in(p.E, p.self0)
-    ok = mid is not None and mid == src and not ms.contents and not ms.holes and not ms.extras \
-        and p.z.entails_eq(ms.len, ms.len0)
+    # (the very same container, or one that took over its whole slot array: models.m_replace / 'adopted')
+    same = mid is not None and src is not None and (mid == src or (ms.replaced == src and p.st.maps[src].dead))
+    len0 = p.st.maps[src].len0 if same else None
+    ok = same and not ms.contents and not ms.holes and not ms.extras and slots.empty(p.z, ms.extra_rng) \
+        and slots.empty(p.z, ms.hole_rng) and len0 is not None and p.z.entails_eq(ms.len, len0)
     ctx.req('ROOTSLICE', ok, nm, 'the consuming iterator must own the unchanged container', p)
 
 
